@@ -215,7 +215,7 @@ func expectFromModel(m *lang.Machine, prog *lang.Program) Expect {
 
 // checkResult compares an engine result with an expectation.
 func checkResult(res eng.Result, exp Expect) error {
-	if res.Panic != nil {
+	if res.Panic != nil && res.Drift == "" {
 		return fmt.Errorf("panic escaped the API: %v", res.Panic)
 	}
 	if res.Drift != "" {
